@@ -1,7 +1,7 @@
 #!/usr/bin/env python3
 """Confirm a seeded change and run the checks against it.
 
-usage: seedrun.py <seed dir under /tmp/seed, e.g. C03> <name under /verif/seeded, e.g. C03-replace-order> [--checks C01,C02,...]
+usage: seedrun.py <scratch worktree: absolute path, or a name under /tmp/seed, e.g. C03> <name under /verif/seeded, e.g. C03-replace-order> [--checks C01,C02,...]
 
 1. in the scratch worktree: the existing suite passes with the change, the demo fails with it and
    passes without it;
@@ -26,7 +26,7 @@ def main():
     checks = None
     if "--checks" in sys.argv:
         checks = sys.argv[sys.argv.index("--checks") + 1].split(",")
-    wt = f"/tmp/seed/{wt_name}"
+    wt = wt_name if wt_name.startswith("/") else f"/tmp/seed/{wt_name}"
     prop = re.match(r"(C\d+)", name).group(1)
     out = os.path.join(ROOT, "seeded", name)
     os.makedirs(out, exist_ok=True)
